@@ -12,7 +12,8 @@
 (* L1: Fidelity / ValidLoads / Rejection / TargetAsWritten /                 *)
 (*     IncludedTextVerbatim on the recorded                                  *)
 (*     outcome (a failing Rejection names the violated rules and, for       *)
-(*     "mixing", which timing attributes were combined);                    *)
+(*     "mixing", which timing attributes were combined: wi / it with        *)
+(*     wtp / tp, and ru when the mixing task also carries a ramp-up);       *)
 (* L2: the recorded outcome equals Code(f) - the transcription of the       *)
 (*     loader - including the error class and the extra attributes.         *)
 (***************************************************************************)
@@ -27,6 +28,7 @@ TInit == i = 1 /\ f = <<>> /\ violated = "none" /\ lim = 0
 
 MixSig(x) == (IF IsSet(x.wi) THEN "wi." ELSE "") \o (IF IsSet(x.it) THEN "it." ELSE "")
              \o (IF IsSet(x.wtp) THEN "wtp." ELSE "") \o (IF IsSet(x.tp) THEN "tp." ELSE "")
+             \o (IF IsSet(x.ru) THEN "ru." ELSE "")   \* the third time period a task can carry (ramp-up-time-period)
 MixSigs(R) == UNION {UNION {{MixSig(Timing(R.chals[c].sched[ps[1]], R.chals[c].sched[ps[1]].tasks[ps[2]]))} :
                         ps \in {qs \in AllPos(R.chals[c]) : Mixing(Timing(R.chals[c].sched[qs[1]], R.chals[c].sched[qs[1]].tasks[qs[2]]))}} :
                      c \in 1..Len(R.chals)}
